@@ -680,6 +680,71 @@ func init() {
 		"k8s.io/apimachinery/pkg/util/intstr.GetScaledValueFromIntOrPercent": icScaledValue,
 		"k8s.io/apimachinery/pkg/util/intstr.GetValueFromIntOrPercent":       icScaledValue,
 
+		"errors.As": func(ex *Exec, fr *frame, fn *ssa.Function, args []Value, pos tokenPos) Value {
+			err := args[0].(IfaceV)
+			tgt := args[1].(IfaceV)
+			if tgt.t == nil {
+				ex.raise(fr, pos, "errors: target cannot be nil")
+			}
+			pt, ok := tgt.t.Underlying().(*types.Pointer)
+			if !ok {
+				ex.raise(fr, pos, "errors: target must be a non-nil pointer")
+			}
+			p := tgt.v.(PtrV)
+			T := pt.Elem()
+			for depth := 0; err.t != nil && depth < 20; depth++ {
+				match := false
+				if types.IsInterface(T) {
+					match = types.Implements(err.t, T.Underlying().(*types.Interface))
+				} else {
+					match = types.Identical(err.t, T)
+				}
+				if match {
+					if types.IsInterface(T) {
+						ex.store(p.c, err)
+					} else {
+						ex.store(p.c, err.v)
+					}
+					return tTrue
+				}
+				m := ex.lookupMethod(err.t, nil, "Unwrap")
+				if m == nil || m.Signature.Results().Len() != 1 {
+					break
+				}
+				next, ok := ex.callFn(fr, FuncV{fn: m}, []Value{err.v}, pos).(IfaceV)
+				if !ok {
+					break
+				}
+				err = next
+			}
+			return tFalse
+		},
+		"errors.Is": func(ex *Exec, fr *frame, fn *ssa.Function, args []Value, pos tokenPos) Value {
+			err := args[0].(IfaceV)
+			tgt := args[1].(IfaceV)
+			for depth := 0; depth < 20; depth++ {
+				if err.t == nil || tgt.t == nil {
+					return mkBool(err.t == nil && tgt.t == nil)
+				}
+				if types.Identical(err.t, tgt.t) {
+					if _, isPtr := err.v.(PtrV); isPtr {
+						if ex.valEq(err.v, tgt.v) == tTrue {
+							return tTrue
+						}
+					}
+				}
+				m := ex.lookupMethod(err.t, nil, "Unwrap")
+				if m == nil || m.Signature.Results().Len() != 1 {
+					break
+				}
+				next, ok := ex.callFn(fr, FuncV{fn: m}, []Value{err.v}, pos).(IfaceV)
+				if !ok {
+					break
+				}
+				err = next
+			}
+			return tFalse
+		},
 		// ---------------- k8s api errors ----------------
 		"k8s.io/apimachinery/pkg/api/errors.IsNotFound":      icReason("NotFound"),
 		"k8s.io/apimachinery/pkg/api/errors.IsAlreadyExists": icReason("AlreadyExists"),
